@@ -64,6 +64,7 @@ def run_case(case):
         g = ref_cfg.build_lib(d)
     if failures:
         return {"failures": failures}
+    N = 7 if d.get("big") else 5
     lang = R.language_upto(N)
     before = ref_cfg.lib_to_ref(g).prod_set()
     changed = False
